@@ -6,7 +6,7 @@
   `numerator = a` and `error = e` (no division by zero met).  `K` is any field.
 -/
 import ALV.Lemmas.C10Min
-import ALV.Lemmas.C10LevErr
+import ALV.Lemmas.C10Uniq
 import ALV.Lemmas.C10CovMin
 import ALV.Common.Audit
 
@@ -90,6 +90,31 @@ theorem levinson_error (r : List K) (order : Option Nat) (a : List K) (e : K)
     have hinv := levIter_inv _ p a h1
     rw [h2, hinv.inner_self, predError_eq]
     exact Nf_congr_r _ _ _ _ _ (coef_zeroExt r p)
+
+/-- **C10.1f** (uniqueness: "*the* monic order-p filter").  Whenever `levinson_durbin` returns,
+every monic order-p solution of the normal equations has the returned coefficients. -/
+theorem levinson_unique (r : List K) (order : Option Nat) (a : List K) (e : K)
+    (h : levinson r order = .ok (a, e)) (b : List K) (hb : IsYuleWalker r b (orderOf r order)) :
+    ∀ j, coef b j = coef a j := by
+  -- the lag list the loop ran on, coefficient-wise equal to r
+  obtain ⟨r', hr', hA⟩ : ∃ r' : List K, (∀ k, coef r' k = coef r k) ∧
+      levIter r' (orderOf r order) = .ok a := by
+    cases order with
+    | none => exact ⟨r, fun _ => rfl, (levinson_none_ok h).2.1⟩
+    | some p => exact ⟨zeroExt r p, coef_zeroExt r p, (levinson_some_ok h).1⟩
+  set p := orderOf r order
+  have hinv := levIter_inv r' p a hA
+  obtain ⟨hb0, hblen, hbne⟩ := hb
+  have hd := yuleWalker_diff_zero hA (fun j => coef b j - 1 * coef a j)
+    (by simp [hb0, hinv.a0])
+    (fun j hj => by
+      rw [coef_of_length_le b j (by omega), coef_of_length_le a j (by have := hinv.len; omega)]; simp)
+    (fun i h1 h2 => by
+      rw [Nf_sub_smul, hinv.ne i h1 h2, Nf_congr_r r' r _ _ _ hr', ← neResidual_eq, hbne i h1 h2]; simp)
+  intro j
+  have := hd j
+  simp only [one_mul] at this
+  exact sub_eq_zero.1 this
 
 /-- **C10.1c** (the excluded inputs, exactly).  For a definite order the only exception is
 ParCorError, and it is raised iff some smaller order has a zero prediction error (the divisor
